@@ -466,6 +466,36 @@ func (f *Frame) loopInvariants(li *loopInfo, spec *LoopSpec, phis []*ssa.Phi) []
 			}})
 		}
 	}
+	// auto: range-index loops (idx = phi[-1, idx+1]; next := idx+1; if next < N): idx < N
+	for pi, p := range phis {
+		if p.Comment != "rangeindex" {
+			continue
+		}
+		var bound ssa.Value
+		for _, in := range p.Block().Instrs {
+			add, ok := in.(*ssa.BinOp)
+			if !ok || add.Op != token.ADD || add.X != p {
+				continue
+			}
+			for _, in2 := range p.Block().Instrs {
+				if cmp, ok := in2.(*ssa.BinOp); ok && cmp.Op == token.LSS && cmp.X == add {
+					bound = cmp.Y
+				}
+			}
+		}
+		if bound == nil {
+			continue
+		}
+		p := p
+		b := bound
+		out = append(out, invariant{name: fmt.Sprintf("autorange%d", pi), text: "auto: range index below the length", eval: func(f *Frame, st *State, phis []*ssa.Phi, next map[*ssa.Phi][]Term) Term {
+			cur := f.vals[p][0]
+			if next != nil {
+				cur = next[p][0]
+			}
+			return Lt(cur, f.get(b)[0])
+		}})
+	}
 	// auto: x = phi[init, x + c]  with constant c  ==>  x >= init  (c > 0) or x <= init (c < 0)
 	for pi, p := range phis {
 		if _, ok := isSigned(p.Type()); !ok {
